@@ -15,7 +15,7 @@ RULE = ("replay: one generated all-module history (5 pools, 14 providers incl. a
         "whitelist and the clp policies, each followed by a restart point of the restarted mode; directed history poolless-prefix (no pool in the first blocks, so "
         "transactions and not block hooks are the first readers; rejected [redecimal ceth, refused swap]; then the first pools; restart before every block); "
         "ACCEPTED administrator edits of objects that block hooks read — a pooled denom re-registered with other decimals, swap-fee / rewards / "
-        "liquidity-protection policies, whitelist member removed and re-added — each followed by a restart point; every epoch end of the pilot is put on a `chk epochEnd` line (old start, duration, new start, counters read from the state; the block times of all histories lie years before the wall clock), judged by Sif.Spec.C09.epochEndOK; directed history staking-cap (20 validators of 5 %; signed transactions of 5-8 MsgDelegate / MsgBeginRedelegate to distinct validators, one of them over the 6.6 % cap at a random position: rejected in the ante handler after gas-metered projections; accepted multi-delegations too); directed history size-thresholds (one margin pool with about 140 open positions — MaxPageLimit is 100 — visited by the margin hook in every block, a dispensation with 45 recipients run 20 at a time, a restart before every block); directed history margin-stress-queue (five margin pools kept under the removal-queue threshold for 56 blocks with small, moving interest rates: the float term of GetSQFromBlocks is evaluated about 270 times); worker processes also differ in CPU features (GODEBUG=cpu.fma=off, cpu.all=off; effect recorded as cpu_probe in stats.json); executions are compared line by line within a CPU-behaviour group and by one cpu-features.<history> line across groups; conflicting bridge claims with tied power, lock/burn, dispensation create/run/claim, margin open/close/"
+        "liquidity-protection policies, whitelist member removed and re-added — each followed by a restart point; every epoch end of the pilot is put on a `chk epochEnd` line (old start, duration, new start, counters read from the state; the block times of all histories lie years before the wall clock), judged by Sif.Spec.C09.epochEndOK; directed history many-claims (ten whitelisted validators of powers 1x7, 10, 10, 13 all reporting different contents for one Ethereum event, in several orders: more than eight distinct conflicting claims on a pending prophecy); directed history staking-cap (20 validators of 5 %; signed transactions of 5-8 MsgDelegate / MsgBeginRedelegate to distinct validators, one of them over the 6.6 % cap at a random position: rejected in the ante handler after gas-metered projections; accepted multi-delegations too); directed history size-thresholds (one margin pool with about 140 open positions — MaxPageLimit is 100 — visited by the margin hook in every block, a dispensation with 45 recipients run 20 at a time, a restart before every block); directed history margin-stress-queue (five margin pools kept under the removal-queue threshold for 56 blocks with small, moving interest rates: the float term of GetSQFromBlocks is evaluated about 270 times); worker processes also differ in CPU features (GODEBUG=cpu.fma=off, cpu.all=off; effect recorded as cpu_probe in stats.json); executions are compared line by line within a CPU-behaviour group and by one cpu-features.<history> line across groups; conflicting bridge claims with tied power, lock/burn, dispensation create/run/claim, margin open/close/"
         "force-close + hook liquidations, registry/admin/bank messages; in every block 1-2 transactions that FAIL INSIDE a handler after "
         "gas-charged work, for every module: dispensation create with an empty-coins output among many recipients / without funds, "
         "run by a wrong runner, clp swap below minimum, remove/unlock more units than held, unpayable add/bucket, refused pool, "
